@@ -82,6 +82,7 @@ class FakeRedis:
         self.fail_next = None  # optional callable(label, cmd) -> Exception|None (fault injection)
         self.ncmds = 0
         self.keep_log = True
+        self.double_takes: list = []
 
     def now(self) -> float:
         return time.time()
@@ -114,6 +115,12 @@ class FakeRedis:
                     if self.keep_log:
                         self.log.append((label, "EXEC", multi))
                     res = [self.ex(label, x) for x in multi]
+                    # a take (remove from a queue + mark processing) whose removal found nothing: the name was
+                    # taken by somebody else between this client's read and its transaction
+                    for i, x in enumerate(multi):
+                        if x[0].upper() in (b"LREM", b"ZREM") and res[i] == 0 and x[1] != b"processing":
+                            if any(y[0].upper() == b"ZADD" and y[1] == b"processing" for y in multi[i + 1:]):
+                                self.double_takes.append((label, x[-1].decode(errors="replace"), self.now()))
                     multi = None
                     w.write(enc(res, p3))
                     continue
